@@ -189,5 +189,5 @@ def cases(draw):
 
 
 PARTS = [
-    Part('rebalances', 'hyp', run_case, strategy=cases(), quick=1000, thorough=160000, quick_shards=8),
+    Part('rebalances', 'hyp', run_case, strategy=cases(), quick=4000, thorough=160000, quick_shards=8),
 ]
